@@ -526,6 +526,13 @@ def replay(ctx, path):
             return fdworld.replay(ctx, path, {"TMPDIR": tmp, "SFH_SCRATCH": tmp})
         finally:
             shutil.rmtree(tmp, ignore_errors=True)
+    if "c19-heapcodec" in text:
+        from .. import heapcodec
+        tmp = tempfile.mkdtemp(prefix="c19-", dir="/var/tmp")
+        try:
+            return heapcodec.replay(ctx, path, {"TMPDIR": tmp, "SFH_SCRATCH": tmp})
+        finally:
+            shutil.rmtree(tmp, ignore_errors=True)
     if "c19-heapfill" in text:
         from .. import heapcamp
         tmp = tempfile.mkdtemp(prefix="c19-", dir="/var/tmp")
@@ -617,6 +624,11 @@ def run(ctx):
         fw_stats = foreignworld.run(ctx, env, [f for f in formats.writable_formats(ctx) if f.major != 0x16], findings)
         ctx.count(fw_stats.get("comparisons", 0))
         ctx.notes["B_foreign_files"] = fw_stats
+        from .. import cmdreach         # every SFC_* command on a handle A, THEN the workloads are opened: B with A = B without A (round 9; Sf.CapsWorld)
+        cr_fails, cr_stats = cmdreach.run(ctx, env)
+        ctx.count(cr_stats.get("comparisons", 0))
+        if cmdreach.report(ctx, cr_fails, replay_text):
+            found_input = True
         seen = set()
         n_rep = 0
         for f in findings:
@@ -634,6 +646,9 @@ def run(ctx):
         # ---- D: heap history -- every script under three allocator fills (vlib/heapcamp.py; Sf.HeaderBuf) ----
         from .. import heapcamp
         if heapcamp.run(ctx, env, formats.writable_formats(ctx)):
+            found_input = True
+        from .. import heapcodec        # D': every codec's private state, writer and reader, first / partial blocks, under the same fills (deterministic slice)
+        if heapcodec.run(ctx, "C19", env, formats.writable_formats(ctx)):
             found_input = True
         leftovers = sorted(os.listdir(tmp)) if os.path.isdir(tmp) else []
         ctx.notes["tmpdir_leftovers"] = leftovers[:10]
